@@ -373,7 +373,8 @@ func propC18(c *ctx) error {
 	if bad > 0 {
 		res.violate(J{"concurrent": true}, "every request served from a built set", fmt.Sprintf("%d requests failed or were torn", bad), "concurrent Reload disturbs requests")
 	}
-	return nil
+	// Reload concurrent with requests under the race detector (separate binary built with -race)
+	return propC15(c)
 }
 
 // stubMgr is a template manager whose GetTemplate can be made to block (directed interleavings).
